@@ -1,5 +1,8 @@
 import Gql.Proofs.OverlapTerm
 import Gql.Proofs.OverlapLocal
+import Gql.Proofs.OverlapHyps
+import Gql.Proofs.OverlapNatural
+import Gql.Proofs.OverlapIff
 /-!
 # C14 — Field-merge validation accepts exactly what the specification accepts
 
@@ -8,9 +11,12 @@ Model: `Gql.Exec.Overlap` — `OverlappingFieldsCanBeMergedRule` as written, wit
 the per-selection-set cache and fuel-indexed recursion.  Spec: `Gql.Exec.Spec` —
 FieldsInSetCanMerge / SameResponseShape over fragment-expanded sets (`SpecConflict`).
 
-Proved here: the four structural lemmas and the *local* part of the equivalence
-(`overlap_iff_partial`).  The document-level equivalence `overlap_iff_full` is **not** proved;
-its evidence is the three-way differential run of `checks/c14.py` (testing).
+Proved here: the four structural lemmas, the *local* part of the equivalence
+(`overlap_iff_partial`), the document-level equivalence for documents without fragment spreads
+(`overlap_iff_nofrag`) and the **unrestricted** equivalence `overlap_iff : overlap_iff_full` —
+every schema, every document: named fragments, cyclic spreads, one fragment reached under many
+parents, both memo tables with their exclusivity flag, the per-selection-set cache.  The
+three-way differential run of `checks/c14.py` ties the model to the Python code.
 -/
 namespace Gql.Props.C14
 open Gql.Exec Gql.Exec.Overlap
@@ -34,6 +40,12 @@ theorem sameArguments_iff {le : String → String → Bool} (hle : LinOrd le) (a
     (ha : argsWF a = true) (hb : argsWF b = true) :
     sameArguments le a b = true ↔ Spec.argsEquiv a b = true := by
   rw [sameArguments_eq_argsEquiv hle a b ha hb]
+
+/-- C14-b'. `natural_comparison_key` is a linear order on names, so C14-b holds of the rule's
+actual sort key without further hypothesis. -/
+theorem sameArguments_iff_natural (a b : Args) (ha : argsWF a = true) (hb : argsWF b = true) :
+    sameArguments naturalLe a b = true ↔ Spec.argsEquiv a b = true :=
+  sameArguments_iff naturalLe_linOrd a b ha hb
 
 /-- `{x: 1, o: {a2: 1, a10: 2, a: [3, {b: 1, c: 2}]}}` against the same arguments in another order,
 with the object keys permuted at both levels; and a different nested value. -/
@@ -127,10 +139,8 @@ to be mutually exclusive — identical field names and identical arguments), and
 state unchanged.  "Known to be mutually exclusive" is the inherited flag or two different object
 parent types, which is exactly ¬(`full` ∧ parents overlap) of the specification.
 
-Missing for the full statement: lifting this through (1) the correspondence between
-`collect_fields_and_fragment_spreads` + the visitor and the specification's fragment-expanded sets,
-(2) the recursion into sub-selections, and (3) the global soundness of the two memo tables
-(`pairset_sound` gives the per-entry fact it rests on). -/
+This is the local step on which `overlap_iff_nofrag` and `overlap_iff` are built
+(`fc_unfold` is its version with the sub-selection branch). -/
 theorem overlap_iff_partial (env : Env) (hle : LinOrd env.le) (n : Nat) (parentExcl : Bool)
     (rn : String) (e1 e2 : FieldEntry) (σ : St)
     (h1 : e1.node.argsOK) (h2 : e2.node.argsOK)
@@ -141,26 +151,123 @@ theorem overlap_iff_partial (env : Env) (hle : LinOrd env.le) (n : Nat) (parentE
       (cs ≠ [] ↔ Spec.direct env.s ⟨e1.inst, e2.inst, !parentExcl⟩ = true) :=
   findConflict_local env hle n parentExcl rn e1 e2 σ h1 h2 hd1 hd2 hsub
 
-/-- no field of the document is the meta field `__typename` (for which the rule has no
-definition, see the known finding) -/
-def NoTypename (s : Schema) (d : Doc) : Prop :=
-  ∀ st0 ∈ Spec.initStates s d, ∀ st, Spec.Reach s d st0 st →
-    st.a.node.name ≠ "__typename" ∧ st.b.node.name ≠ "__typename"
+/-- C14-e (**documents without fragment spreads**).  For every schema and every document that
+spreads no named fragment — inline fragments with and without type conditions, arbitrary nesting,
+any number of operations (and unused fragment definitions) — the rule, run with its actual sort
+key and the proved recursion bound, returns and reports at least one conflict **iff** the
+specification's FieldsInSetCanMerge / SameResponseShape finds an unmergeable pair.
 
-/-- the specification never stops at a scalar/enum pair that both have sub-selections
-(ScalarLeafs holds) -/
-def LeafNoSub (s : Schema) (d : Doc) : Prop :=
-  ∀ st0 ∈ Spec.initStates s d, ∀ st, Spec.Reach s d st0 st →
-    Spec.leafStop s st = true → (st.a.node.hasSub && st.b.node.hasSub) = false
+Hypotheses (each is what another validation rule or the parser guarantees):
+selection-set identities pairwise different (`IdsNodup`, a document is a tree of distinct nodes),
+unique argument / input-field names (`argsWF`), no `__typename` selection (`NoTypename`; without it
+the statement is false for the code as it is, see the known finding below), operation roots are
+object types (`RootsObject`), the specification never stops at a scalar pair with sub-selections
+(`LeafNoSub`; follows from ScalarLeafs, `leafNoSub_of_scalarLeafs`).
 
-/-- The target, unrestricted over schemas and documents (cyclic spreads, one fragment under many
-parents, both memo tables): the rule reports at least one conflict iff the specification finds an
-unmergeable pair.  **Not proved** — evidence: three-way differential testing (`checks/c14.py`).
-Without `NoTypename` the statement is false for the code as it is (corpus witness
-`w04_typename_vs_int`). -/
+The proof covers: field-map (`collect_fields_and_fragment_spreads`, grouped by response name)
+↔ the specification's expanded set; the visitor's `TypeInfo` parent types and the first-come
+parent of the per-selection-set cache (equal after normalising non-composite types to `None`,
+which is all the rule can observe); recursion into sub-selections with the inherited
+"mutually exclusive" flag ↔ the specification's `full`/shape-only modes; the specification's
+pairs *within* a merged sub-selection are found when that selection set is visited itself. -/
+theorem overlap_iff_nofrag (s : Schema) (d : Doc) (hn : d.NoSpreads) (hI : d.IdsNodup)
+    (hA : d.argsWF = true) (hT : d.NoTypename) (hR : RootsObject s d) (hL : LeafNoSub s d) :
+    ∃ cs, implConflicts s d = some cs ∧ (cs ≠ [] ↔ ¬ Spec.specMergeable s d) := by
+  obtain ⟨cs, e, i⟩ := overlap_iff_nofrag_le naturalLe naturalLe_linOrd s d hn hI hA hT hR hL
+  refine ⟨cs, e, i.trans ?_⟩
+  simp [Spec.specMergeable]
+
+/-- `LeafNoSub` follows from the ScalarLeafs rule (decidable on a concrete document). -/
+theorem leafNoSub_of_scalarLeafs (s : Schema) (d : Doc) (hn : d.NoSpreads)
+    (hs : ScalarLeafs s d) : LeafNoSub s d :=
+  Gql.Exec.leafNoSub_of_scalarLeafs hn hs
+
+/-- `{ t { ... on T1 { f: a { x } } ... on T2 { f: b { x y: x } } } t { ... { ... on T1 { a { y: x } } } } }`
+with `T1.a: A`, `T2.b: B`, `A.x: Int`, `B.x: String`: exclusive parents, so `f: a` / `f: b` may
+differ, but the shapes of `x` (Int / String) may not. -/
+def nofragSchema : Schema :=
+  [⟨"Query", .object, [("t", .comp "U")]⟩, ⟨"U", .union, []⟩,
+   ⟨"T1", .object, [("a", .comp "A")]⟩, ⟨"T2", .object, [("b", .comp "B")]⟩,
+   ⟨"A", .object, [("x", .leaf "Int")]⟩, ⟨"B", .object, [("x", .leaf "String")]⟩]
+
+def nofragDoc : Doc :=
+  [.op (some "Query") ⟨1, [
+    .field 2 none "t" [] none true 3
+      [.inline (some "T1") 4 [.field 5 (some "f") "a" [] none true 6
+          [.field 7 none "x" [] none false 0 []]],
+       .inline (some "T2") 8 [.field 9 (some "f") "b" [] none true 10
+          [.field 11 none "x" [] none false 0 [], .field 12 (some "y") "x" [] none false 0 []]]],
+    .field 13 none "t" [] none true 14
+      [.inline none 15 [.inline (some "T1") 16 [.field 17 none "a" [] none true 18
+          [.field 19 (some "y") "x" [] none false 0 []]]]]]⟩]
+
+example : nofragDoc.NoSpreads ∧ nofragDoc.IdsNodup ∧ nofragDoc.argsWF = true ∧
+    nofragDoc.NoTypename ∧ RootsObject nofragSchema nofragDoc ∧
+    ScalarLeafs nofragSchema nofragDoc := by
+  refine ⟨by unfold Doc.NoSpreads; decide, by unfold Doc.IdsNodup; decide, by decide,
+    by unfold Doc.NoTypename; decide, ?_, by unfold ScalarLeafs; decide⟩
+  intro df hdf
+  simp only [nofragDoc, List.mem_singleton] at hdf
+  subst hdf
+  exact Or.inr (by decide)
+
+example : (implConflicts nofragSchema nofragDoc).map (·.length) = some 1 ∧
+    Spec.specConflictB nofragSchema nofragDoc = some true := by decide +kernel
+
+/-- The target, unrestricted over schemas and documents (named fragments, cyclic spreads, one
+fragment reached under many parents, both memo tables): the rule returns and reports at least one
+conflict iff the specification finds an unmergeable pair.  Hypotheses are the ones of
+`overlap_iff_nofrag` plus `KeysInj` (different spread names have different conflict keys — true
+of GraphQL names, which contain no parenthesis: `keysInj_of_names`).  Without `NoTypename` the
+statement is false for the code as it is (corpus witness `w04_typename_vs_int`, example below). -/
 def overlap_iff_full : Prop :=
-  ∀ (s : Schema) (d : Doc), d.IdsUnique → d.argsWF = true → NoTypename s d → LeafNoSub s d →
-    ((∃ cs, implConflicts s d = some cs ∧ cs ≠ []) ↔ ¬ Spec.specMergeable s d)
+  ∀ (s : Schema) (d : Doc), d.IdsNodup → d.argsWF = true → d.NoTypename → RootsObject s d →
+    LeafNoSub s d → KeysInj d →
+    ∃ cs, implConflicts s d = some cs ∧ (cs ≠ [] ↔ ¬ Spec.specMergeable s d)
+
+/-- C14 (**full**).  `overlap_iff_full` holds.
+
+*Soundness* (`implConflictsFuel_sound`): by induction on the recursion, every comparison the
+rule makes is between two fields of one expanded set of the specification, in a mode the
+specification reaches; the memo tables only skip work.
+*Completeness* (`implConflictsFuel_complete`): in a run that reports nothing, every memo entry
+whose comparison has finished is *closed* — its body passed, relative to the tables — tables only
+grow and pass predicates are monotone in them (`run_all`; entries of comparisons still on the
+call stack are exempt until they return, which is what makes cyclic spreads harmless); from closed
+final tables and the passed visit of every selection set, no two fields of an expanded set
+conflict (`no_uwconf`: induction on the size of the would-be conflict — spread paths and chain of
+sub-selections — not on the fragment graph, so no acyclicity is needed).  A `has` hit under a
+stored flag `r` for a query `q` requires `r → q`, and passing under `r` implies passing under `q`
+(`PPass.weaken`): the exclusivity flag of the pair sets.
+*Specification side*: the depth-first, shared-visited-set expansion collects exactly the fields
+reachable through spreads (`expand_mem`, fuel = number of fragment definitions + 1 suffices), and
+`SpecConflict` is an unordered notion (`specConflict_iff_uw`). -/
+theorem overlap_iff : overlap_iff_full := by
+  intro s d hI hA hT hR hL hK
+  obtain ⟨cs, e, i⟩ := overlap_iff_le naturalLe naturalLe_linOrd s d hI hA hT hR hL hK
+  refine ⟨cs, e, i.trans ?_⟩
+  simp [Spec.specMergeable]
+
+/-- `KeysInj` for documents whose spread names contain no `(`. -/
+theorem keysInj_of_names (d : Doc) (h : ∀ n ∈ d.spreadNames, '(' ∉ n.toList) : KeysInj d :=
+  Gql.Exec.keysInj_of_names h
+
+/-- `LeafNoSub` follows from ScalarLeafs, also with fragments. -/
+theorem leafNoSub_of_scalarLeafs_gen (s : Schema) (d : Doc) (hs : ScalarLeafs s d) :
+    LeafNoSub s d := Gql.Exec.leafNoSub_of_scalarLeafs_gen hs
+
+/-- the mutually recursive fragments of `cyclicDoc` satisfy every hypothesis of `overlap_iff` -/
+example : cyclicDoc.IdsNodup ∧ cyclicDoc.argsWF = true ∧ cyclicDoc.NoTypename ∧
+    RootsObject cyclicSchema cyclicDoc ∧ ScalarLeafs cyclicSchema cyclicDoc ∧
+    KeysInj cyclicDoc := by
+  refine ⟨by unfold Doc.IdsNodup; decide, by decide, by unfold Doc.NoTypename; decide, ?_,
+    by unfold ScalarLeafs; decide, by unfold KeysInj; decide⟩
+  intro df hdf
+  simp only [cyclicDoc, List.mem_cons, List.not_mem_nil, or_false] at hdf
+  rcases hdf with rfl | rfl | rfl
+  · exact Or.inr (by decide)
+  · trivial
+  · trivial
 
 /-- Known finding, machine-checked on the model: `{ t { ... on T1 { f: __typename } ... on T2 { f: i } } }`
 (`i: Int`) — the rule reports nothing, the specification rejects (`String!` vs `Int`). -/
